@@ -84,6 +84,78 @@ def build(env, per_cell, with_par=True):
     return cw
 
 
+def build_plain(env):
+    """sessions without any driver-made threads: what the LIBRARY does with threads is then visible to strace"""
+    g = gen.G(env.rnd)
+    cw = cl.CaseW()
+    for kem in gen.KEMS:
+        for mode in gen.MODES:
+            aead = gen.ALL_AEADS[(kem + mode) % 4]
+            s = cw.session(kem, gen.KDFS[mode % 3], aead, sid="pl%04x_%d" % (kem, mode))
+            gen.add_pair(s, g, kem, mode)
+            if aead != 0xFFFF:
+                s.call("seal", ctx="S", api="alloc", pt="0102", aad="-", out="m")
+                s.call("open", ctx="R", api="alloc", ct="$m.full", aad="-")
+                s.call("ss_seal", mode=0, pkr="$kR.pk", info="-", pt="01", aad="-", rng=g.rbytes(gen.nsk(kem)), api="alloc", out="q")
+                s.call("ss_open", mode=0, skr="$kR.sk", enc="$q.enc", info="-", ct="$q.full", aad="-", api="alloc")
+            s.call("export", ctx="R", exctx="-", len=32)
+    return cw
+
+
+def thread_creation_probe(env):
+    """The library must not create threads of its own (its results must not depend on whether the process can):
+    a sequential run of driver-thread-free sessions under strace must show no clone(CLONE_THREAD)."""
+    import shutil
+    if not shutil.which("strace"):
+        env.note("strace not available: thread-creation probe skipped")
+        return
+    text = build_plain(env).text()
+    for b in ("checked", "checked-std"):
+        out = os.path.join(env.work, "strace.%s.out" % b)
+        if os.path.exists(out):
+            os.remove(out)
+        res = env.drive("plain", text, build=b, wrapper=["strace", "-f", "-qq", "-e", "trace=clone,clone3", "-o", out])
+        if res.timed_out or res.rc != 0 or not os.path.exists(out):
+            env.note("thread-creation probe on %s did not run (rc %s)" % (b, res.rc))
+            continue
+        lines = [l for l in open(out) if "CLONE_THREAD" in l or "clone3(" in l]
+        env.count("evaluations", 1)
+        env.extra_cov.setdefault("threads_created_by_library", {})[b] = len(lines)
+        if lines:
+            env.violation("C18:library_creates_threads", "during a sequential run in which the driver creates no threads, %d thread(s) were created on the %s build: the library's results depend on the process being able to create threads (strace: %s)" % (len(lines), b, lines[0].strip()[:120]), workload="placement")
+        else:
+            env.seen(("no_threads", b))
+
+
+def teardown_probe(env):
+    """the library used from a thread-local destructor while a thread exits (std build: std-only thread-locals)"""
+    g = gen.G(env.rnd)
+    cw = cl.CaseW()
+    for i, kem in enumerate(gen.KEMS):
+        s = cw.session(kem, gen.KDFS[i % 3], gen.SEAL_AEADS[i % 3], sid="td%d" % i)
+        gen.add_keys(s, g, kem, "kR")
+        s.call("tls_teardown", skr="$kR.sk", pkr="$kR.pk", rng=g.rbytes(gen.nsk(kem)))
+    for b in ("checked", "checked-std"):
+        res = env.drive("teardown", cw.text(), build=b)
+        if res.timed_out:
+            env.inconclusive.append("teardown probe: watchdog")
+            continue
+        for ss in res.sessions:
+            for o in (ss.all_ops or ss.ops):
+                if o.op != "tls_teardown":
+                    continue
+                env.count("evaluations", 1)
+                if o.ret is None:
+                    env.violation("C18:aborts_during_thread_teardown", "a round trip made from a thread-local destructor while its thread exits killed the process (%s build, exit %s): the library's behaviour depends on the state of the thread it runs on" % (b, res.rc),
+                                  case_text=ss.case_text(o.id), workload="placement")
+                elif o.ret.get("body") != "ok" or o.ret.get("in_destructor") != "ok":
+                    env.violation("C18:differs_during_thread_teardown", "round trip in the thread body: %s; the same round trip from a thread-local destructor during thread exit: %s (%s build)" % (o.ret.get("body"), o.ret.get("in_destructor"), b),
+                                  case_text=ss.case_text(o.id), workload="placement")
+                else:
+                    env.seen(("teardown", ss.ids[0], b))
+                    env.count("round_trips_from_thread_local_destructor", 1)
+
+
 def build_storm(env, scale):
     """many threads, each with its own recipient key of the same KEM, decapsulating at once"""
     g = gen.G(env.rnd)
@@ -353,6 +425,8 @@ def run(env):
         compare(env, "noalloc+" + sc, nbase, r3, na_placements)
         check_par(env, r3)
     env.extra_cov["noalloc_build_placements"] = na_placements
+    thread_creation_probe(env)
+    teardown_probe(env)
     stext = build_storm(env, env.pick(1, 6)).text()
     for b in ("checked", "checked-std", "checked-noalloc"):
         rs = env.drive("storm", stext, build=b)
